@@ -435,6 +435,8 @@ type c17WitnessDoc struct {
 	Ops      []string   `json:"ops"`
 	Queries  []c17Query `json:"queries,omitempty"`
 	Idx      int        `json:"idx"`
+	Seed     int64      `json:"seed,omitempty"`
+	Tier     string     `json:"tier,omitempty"`
 	Repeat   int        `json:"repeat,omitempty"`
 	N        int        `json:"n,omitempty"`
 	From     int        `json:"from,omitempty"`
@@ -489,8 +491,15 @@ func c17Witness(env *core.Env, raw json.RawMessage) *core.CaseResult {
 		if n < 1 {
 			n = 1
 		}
+		e2 := *env // the case is a function of (seed, tier, idx): a witness may pin all three
+		if w.Seed != 0 {
+			e2.Seed = w.Seed
+		}
+		if w.Tier != "" {
+			e2.Tier = w.Tier
+		}
 		for i := 0; i < n && len(res.Violations) == 0; i++ {
-			r := c17Run(env, w.Idx)
+			r := c17Run(&e2, w.Idx)
 			res.Violations = append(res.Violations, r.Violations...)
 		}
 		return res
